@@ -27,7 +27,7 @@ PatAlphabet == {"a", "b", "*", "?", "/"}
 RECURSIVE PStrs(_, _)
 PStrs(n, al) == IF n = 0 THEN {<<>>} ELSE LET s == PStrs(n - 1, al) IN s \cup {Append(x, c) : x \in {y \in s : Len(y) = n - 1}, c \in al}
 
-\* patterns are concatenations of up to MaxLen2 + 1 tokens, so that classes, ranges, negations, escapes and every
+\* patterns are concatenations of up to 2 tokens (names grow with MaxLen2), so that classes, ranges, negations, escapes and every
 \* way of leaving them unfinished occur next to each other and to the wildcards
 MTokens == {<<"a">>, <<"b">>, <<"*">>, <<"?">>, <<"/">>, <<"\\">>, <<"\\", "a">>, <<"\\", "\\">>, <<"\\", "[">>, <<"\\", "*">>,
             <<"[", "a", "]">>, <<"[", "^", "a", "]">>, <<"[", "a", "-", "b", "]">>, <<"[", "b", "-", "a", "]">>,
@@ -37,7 +37,7 @@ MTokens == {<<"a">>, <<"b">>, <<"*">>, <<"?">>, <<"/">>, <<"\\">>, <<"\\", "a">>
             <<"[", "]", "a", "]">>, <<"[">>, <<"]">>, <<"-">>, <<"^">>, <<"[", "a", "b", "]">>, <<"[", "^", "a", "-", "b", "]">>}
 RECURSIVE MPats(_)
 MPats(k) == IF k = 0 THEN {<<>>} ELSE LET s == MPats(k - 1) IN s \cup {x \o t : x \in s, t \in MTokens}
-MNames == PStrs(2, {"a", "b", "/", "\\", "-", "]", "_"})
+MNames == PStrs(MaxLen2, {"a", "b", "/", "\\", "-", "]", "_"})
 
 Two(a, b) ==
     [a |-> a, b |-> b, join |-> Join2("linux", a, b), rel |-> RelL(a, b).path, relerr |-> RelL(a, b).err,
@@ -49,7 +49,7 @@ Emit(rec) == IF EdgeFile = "" THEN TRUE ELSE CSVWrite("%1$s", <<ToJson(rec)>>, E
 Init == phase = "go" /\ cur \in ({[t |-> "one", s |-> s, b |-> <<>>] : s \in Strs(MaxLen1)}
                                  \cup {[t |-> "two", s |-> a, b |-> b] : a \in Strs(MaxLen2), b \in Strs(MaxLen2)}
                                  \cup {[t |-> "match", s |-> p, b |-> n] : p \in PStrs(MaxLen2 + 1, PatAlphabet), n \in PStrs(MaxLen2 + 1, {"a", "b", "/"})}
-                                 \cup {[t |-> "match", s |-> p, b |-> n] : p \in MPats(MaxLen2), n \in MNames})
+                                 \cup {[t |-> "match", s |-> p, b |-> n] : p \in MPats(2), n \in MNames})
 Next == /\ phase = "go" /\ phase' = "done" /\ cur' = cur
         /\ CASE cur.t = "one" ->
                   /\ Emit([t |-> "one", r |-> One("linux", cur.s)])
